@@ -433,6 +433,11 @@ func (s *streamGRPC) RecvMsg(m interface{}) error {
 		buf.Reset()
 		if err := s.decompress(buf, b); err != nil {
 			bufPool.Put(buf)
+			if err == io.EOF {
+				// an empty payload is not a compressed message; a bare
+				// io.EOF would read as the client's half-close
+				err = io.ErrUnexpectedEOF
+			}
 			return err
 		}
 		size = uint32(buf.Len())
